@@ -1385,6 +1385,7 @@ pub fn run_n(cfg: &RunCfg, which: &str, fixed_seqs: Option<u64>) -> Report {
             }
             rep.op(op_name(&op));
             lines.push(b.line.clone());
+            if std::env::var("BA_DEBUG_OPS").is_ok() { eprintln!("[{}] e={} script={} {:?}", step, epoch, ctx.script, op); }
             let replay_hdr = vec![
                 format!("property {} seed {} seq {} (re-run: ba_harness {} --seed {} --only-seq {})", prop, cfg.seed, super::seq_label(seq), which, cfg.seed, super::seq_label(seq)),
                 format!("failing step {}: {:?}", step, op),
